@@ -99,6 +99,7 @@ def build(unit, extra_edits=None):
         parts.append('// ==== unit prelude (ghost)\n' + unit.prelude + '\n')
     outlined_bodies = {}
     fmt_sites = []
+    exec_codes = []
     for it in unit.items:
         try:
             cur = current_item_text(it)
@@ -118,6 +119,25 @@ def build(unit, extra_edits=None):
         for r in recs:
             if r.get('fmt_site'):
                 fmt_sites.append(r['fmt_site'])
+        if getattr(unit, 'allowed_calls', None) is not None and (it.edits or getattr(it, 'auto', ())):
+            import re as _re
+            code_ = _re.sub(r'/\*@\+(\d+|wrap)\*/.*?/\*@-\*/', '', ann, flags=_re.S)
+            by_id_ = {r_['id']: r_ for r_ in recs}
+            # hand-written replacement text (pinned `rep` edits: anchored, reviewed with the unit) is not scanned; the text produced by the
+            # current-anchored rules and every untouched token of the source is
+            code_ = _re.sub(r'/\*@<(\d+)\*/(.*?)/\*@>\*/', lambda m_: '' if 'anchor' in by_id_[int(m_.group(1))] else m_.group(2), code_, flags=_re.S)
+            exec_codes.append((it.name, code_))
+        forbid = getattr(unit, 'forbid', None)
+        if forbid:
+            # the rewritten exec text (inserted ghost text removed): constructs without a usable specification must be gone
+            import re as _re
+            code = _re.sub(r'/\*@\+(\d+|wrap)\*/.*?/\*@-\*/', '', ann, flags=_re.S)
+            code = _re.sub(r'/\*@[<>]\d*\*/', '', code)
+            toks = ''.join(rsx.Src(code).sigtext)
+            for f in forbid:
+                if f.replace(' ', '') in toks:
+                    raise Undecided('unit %s: item %s: `%s` remains after rewriting (a construct Verus accepts without a usable specification): '
+                                    'the deductive verdict is withheld' % (unit.name, it.name, f))
         if rsx.erase(ann, recs) != cur:
             raise Undecided('unit %s: item %s: erasure check failed (machinery fault)' % (unit.name, it.name))
         for r in recs:
@@ -146,6 +166,21 @@ def build(unit, extra_edits=None):
             body = 'unimplemented!() /* original text: ' + outlined_bodies[cid].replace('*/', '* /') + ' */'
         parts.append('#[verifier::external_body]\n' + decl.rstrip() + '\n{ ' + body + ' }\n')
         prov['outlines'].append({'id': cid, 'decl': decl, 'body': outlined_bodies[cid], 'compiled': opts.get('compile', True)})
+    allowed = getattr(unit, 'allowed_calls', None)
+    if allowed is not None:
+        # closed-world check: a function under contract may only call what this unit gives a contract / an assumed specification to.  Verus
+        # accepts many std calls with a partial or empty meaning; a proof that fails because of such a call says nothing about the code.
+        import re as _re
+        defined = set(_re.findall(r'\bfn\s+([A-Za-z_][A-Za-z0-9_]*)', ''.join(parts))) | {s_['name'] for s_ in fmt_sites}
+        for (iname, code) in exec_codes:
+            st = rsx.Src(code).sigtext
+            for k in range(1, len(st) - 1):
+                if st[k + 1] == '(' and _re.fullmatch(r'[a-z_][A-Za-z0-9_]*', st[k]) and st[k] not in ('if', 'match', 'while', 'for', 'return', 'in', 'fn', 'let', 'mut', 'ref', 'loop', 'as', 'move', 'else', 'self', 'crate', 'super', 'where', 'impl', 'dyn', 'pub', 'use', 'mod', 'break', 'continue'):
+                    if st[k - 1] == 'fn':
+                        continue
+                    if st[k] not in defined and st[k] not in allowed:
+                        raise Undecided('unit %s: item %s calls `%s`, which has no contract in this unit (closed-world check): the deductive '
+                                        'verdict is withheld' % (unit.name, iname, st[k]))
     for site in fmt_sites:
         # T14: contract generated from the format literal found in the CURRENT source text
         terms = []
